@@ -241,6 +241,46 @@ def fit_case(case):
             "stats": {"evals": 1}, "sample": {"estimator": name, "spec": spec, "shape": shape, "form": form}}
 
 
+def defaults_case(case):
+    """The documentation is the specification of what an omitted hyperparameter means: (a) every signature default equals the documented
+    'default=' value; (b) an estimator built with the defaults fits to the same model as the estimator built with the documented values
+    written out (only random_state and a small max_iter are given in both, to keep the run short and reproducible)."""
+    import inspect
+    from mc.defaults import documented_defaults
+    name, seed = case
+    klass = M.cls(name)
+    doc = documented_defaults(klass)
+    sig = inspect.signature(klass.__init__).parameters
+    where = dict(estimator=name, deviating=[], n=7, d=3, form="documented_defaults")
+    v = []
+    for k_, val_ in doc.items():
+        if k_ in sig and sig[k_].default is not inspect.Parameter.empty and sig[k_].default != val_:
+            v.append(violation("default_differs_from_the_documented_value", {"parameter": k_, "documented": val_, "signature": sig[k_].default}, parameter=k_, **where))
+    if name in M.SPARSE:
+        pdoc = documented_defaults(klass.path)
+        psig = inspect.signature(klass.path).parameters
+        for k_, val_ in pdoc.items():
+            if k_ in psig and psig[k_].default is not inspect.Parameter.empty and psig[k_].default != val_:
+                v.append(violation("default_differs_from_the_documented_value", {"method": "path", "parameter": k_, "documented": val_, "signature": psig[k_].default},
+                                   parameter="path." + k_, **where))
+    X = seams.tiny_data(7, 3, seed + 21)
+    fixed = {"random_state": seed} if name == "Kauri" else {"random_state": seed, "max_iter": 2}
+    import warnings
+    with warnings.catch_warnings():
+        warnings.simplefilter("ignore")
+        a = klass(**fixed).fit(X)
+        b = klass(**dict({k_: v_ for k_, v_ in doc.items() if k_ in sig}, **fixed)).fit(X)
+    same = np.array_equal(a.labels_, b.labels_)
+    if same and name != "Kauri":
+        same = all(np.array_equal(x_, y_) for x_, y_ in zip(a._get_weights(), b._get_weights())) and a.score(X) == b.score(X)
+    elif same:
+        same = a.score(X) == b.score(X) and a.tree_.thresholds == b.tree_.thresholds
+    if not same:
+        v.append(violation("default_differs_from_the_documented_value", {"what": "the default-constructed estimator fits differently from the one built with the documented values",
+                                                                       "documented": {k_: repr(v_) for k_, v_ in doc.items()}}, parameter="(behaviour)", **where))
+    return {"v": v[:4], "nt": [case], "stats": {"evals": 2}, "sample": {"estimator": name, "documented": {k_: repr(v_) for k_, v_ in doc.items()}}}
+
+
 def missing_matrix_case(case):
     """Kauri(kernel='precomputed') fitted without the matrix: either refused (ValueError / TypeError family), or - the documented fallback -
     a warning and exactly the model of the linear kernel; never a third thing (e.g. the data itself used as a kernel when it is square)."""
@@ -364,7 +404,10 @@ def explorers(tier, seed):
         for var in variants:
             for a, b in (((6, 3), (4, 2)), ((4, 2), (6, 3)), ((6, 3), (3, 3)), ((3, 2), (6, 2))):
                 cases.append((name, dict({"random_state": seed}, **var), a, b, seed, "refit"))
-    return [Explorer("valid_configurations", "props.c04", "fit_case", cases, chunk=16, floor=500, case_timeout=600,
+    return [Explorer("documented_defaults", "props.c04", "defaults_case", [(name, seed) for name in M.ESTIMATORS], chunk=2, floor=18,
+                     rule="18 estimators (+ path() of the 5 sparse ones): every signature default equals the numpydoc 'default=' value, and the estimator built with "
+                          "the defaults fits to the same model as the one built with the documented values written out"),
+            Explorer("valid_configurations", "props.c04", "fit_case", cases, chunk=16, floor=500, case_timeout=600,
                      rule="all 18 estimators x data shapes {(3,1),(4,2),(6,3)} x every single-axis deviation from the default over the documented axes "
                           "(13 GEMINI names + instances + None, solver, every batch size 1..n+1, every n_clusters 1..n, kernel/metric menus incl. "
                           "callable/precomputed, ovo, reg, groups, alpha, M, dynamic, n_cuts, temperature, feature_mask, tree limits) + two-axis deviations on "
